@@ -10,6 +10,15 @@ theorem filter_not_has_nil (m : OMap) : m.filter (fun e => !has [] e.hash) = m :
   apply List.filter_eq_self.mpr
   intro a _; rfl
 
+/-- the new `loadHead`, unfolded -/
+theorem loadHead_eq (acl : Acl) (fetch : Nat → OMap) (amount : Int) (L : Log) (h : Nat) :
+    loadHead acl fetch amount L h =
+      match joinSize acl.canAppend L (ofList (fetch h)) (ofList (findHeads (ofList (fetch h)))) L.id (-1) with
+      | .ok L' =>
+        if amount > -1 && (values L').length > amount then (trim L' amount.toNat).map bumpClock else .ok L'
+      | .error .panic => .error .panic
+      | .error _ => .ok L := rfl
+
 /-- **one head into a fresh log**: all the fetched entries are merged (`L1`), then the listing is cut
 to its last `amount` values when `0 ≤ amount < |fetched|`, and left whole otherwise -/
 theorem loadHead_fresh {U : List Entry} (hU : HashDet U) (hT : TieFree U) (hM : ClockMono U)
@@ -51,34 +60,51 @@ theorem loadHead_fresh {U : List Entry} (hU : HashDet U) (hT : TieFree U) (hM : 
   refine ⟨L1, hI1, hnd1, fun e => (hent e).trans (hmem e), ?_⟩
   have hall : (difference m (ofList (findHeads m)) (Log.empty id)).all (acceptable acl.canAppend) = true :=
     List.all_eq_true.mpr (fun x hx => hacc x ((hmem x).mp (difference_item _ _ _ x hx).1))
-  rcases joinSize_cases acl.canAppend (Log.empty id) m (ofList (findHeads m))
-      (loadSize amount (Log.empty id) m) with ⟨hna, _⟩ | ⟨_, hj⟩
+  rcases joinSize_cases acl.canAppend (Log.empty id) m (ofList (findHeads m)) (-1) with ⟨hna, _⟩ | ⟨_, hj⟩
   · exact absurd hall hna
-  rw [hj, hL1]
-  have hsize : loadSize amount (Log.empty id) m =
-      if amount > -1 ∧ amount ≥ (m.length : Int) then -1 else amount := by
-    unfold loadSize
-    show (if (decide (amount > -1) && decide (amount ≥
-      (([] : OMap).length : Int) + ((m.filter (fun e => !has [] e.hash)).length : Int))) = true
-      then -1 else amount) = _
-    rw [filter_not_has_nil]
-    simp only [List.length_nil, Int.natCast_zero, Int.zero_add, Bool.and_eq_true, decide_eq_true_eq]
-  rw [hsize]
+  rw [hj, hL1, if_neg (by decide)]
+  dsimp only
+  have hvb : (values (bumpClock L1)).length = (values L1).length := rfl
+  have hIb : Inv U (bumpClock L1) := ⟨hI1.sub, hI1.heads, hI1.nidx, hI1.hnodup⟩
+  have hndb : (bumpClock L1).entries.Nodup := hnd1
   by_cases hcut : amount > -1 ∧ amount < (values L1).length
   · rw [if_pos hcut]
-    have hnot : ¬ (amount > -1 ∧ amount ≥ (m.length : Int)) := by omega
-    rw [if_neg hnot, if_pos hcut.1]
-    obtain ⟨L2, ht⟩ := trim_ok (L := L1) (size := amount.toNat) (by omega)
-    obtain ⟨_, hv, _, _, hid2⟩ := trim_values_inv hU hT hM hI1 hnd1 ht
-    rw [ht]
-    refine ⟨bumpClock L2, rfl, ?_, ?_⟩
-    · show L2.id = id; rw [hid2, ← hL1id]
-    · rw [values_bumpClock, hv]
+    split
+    · obtain ⟨L2, ht⟩ := trim_ok (L := bumpClock L1) (size := amount.toNat) (by rw [hvb]; omega)
+      obtain ⟨_, hv, _, _, hid2⟩ := trim_values_inv hU hT hM hIb hndb ht
+      rw [ht]
+      refine ⟨bumpClock L2, rfl, ?_, ?_⟩
+      · show L2.id = id; rw [hid2]; exact hL1id
+      · rw [values_bumpClock, hv, values_bumpClock]
+    · rename_i hc
+      simp only [Bool.and_eq_true, decide_eq_true_eq, hvb] at hc
+      omega
   · rw [if_neg hcut]
-    by_cases hbig : amount > -1 ∧ amount ≥ (m.length : Int)
-    · rw [if_pos hbig, if_neg (by decide)]
-      exact ⟨bumpClock L1, rfl, hL1id, values_bumpClock L1⟩
-    · rw [if_neg hbig, if_neg (by omega)]
-      exact ⟨bumpClock L1, rfl, hL1id, values_bumpClock L1⟩
+    split
+    · rename_i hc
+      simp only [Bool.and_eq_true, decide_eq_true_eq, hvb] at hc
+      omega
+    · exact ⟨bumpClock L1, rfl, hL1id, values_bumpClock L1⟩
+
+/-- **`Load` of one head never panics** — for EVERY log (with holes, partially loaded, whatever its
+heads and link index), every fetched log and every amount: the merge asks for no trim, and the trim is
+only asked for when the listing is longer than the amount (after the `fix:` commit, finding F30) -/
+theorem loadHead_never_panics (acl : Acl) (fetch : Nat → OMap) (amount : Int) (L : Log) (h : Nat) :
+    loadHead acl fetch amount L h ≠ .error .panic := by
+  rw [loadHead_eq]
+  generalize ofList (fetch h) = m
+  rcases joinSize_cases acl.canAppend L m (ofList (findHeads m)) (-1) with ⟨_, e, he, hne⟩ | ⟨_, hj⟩
+  · rw [he]
+    cases e <;> first | exact absurd rfl hne | (intro hc; cases hc)
+  · rw [hj, if_neg (by decide)]
+    dsimp only
+    split
+    · rename_i hc
+      simp only [Bool.and_eq_true, decide_eq_true_eq] at hc
+      obtain ⟨L2, ht⟩ := trim_ok (L := bumpClock (joinCore L m (ofList (findHeads m)) L.id))
+        (size := amount.toNat) (by omega)
+      rw [ht]
+      intro hc'; cases hc'
+    · intro hc'; cases hc'
 
 end Orbit
